@@ -549,6 +549,11 @@ func (viso *VirtualISO) writeFSStructures(gameCode string) error {
 	// ps3-game specific sectors
 	emptySectorsNeeded := systemAreaSize.sectors()
 	if viso.ps3Mode {
+		// product id is "XXXX-NNNNN...", it must fit 32 bytes field
+		if len(gameCode) < 4 || len(gameCode) > 31 {
+			return fmt.Errorf("unexpected TITLE_ID length: %d", len(gameCode))
+		}
+
 		emptySectorsNeeded -= 2
 
 		viso.fsBuf.appendEncodable(discRangesSector{{
